@@ -4,8 +4,9 @@
    The composition through enclosing nodes is proved too (coq/Context.v): wherever a Wikicode sits below the
    page - in any place __children__ yields, at any depth - the page's text is pre ++ text(it) ++ post with pre
    and post independent of it, so replacing its contents changes exactly its span.  String targets are
-   validated by the oracle on parsed trees, not proved. *)
-From MW Require Import PyBase PyList SmartList WikiEdit EditSpan Nodes Strip Context.
+   proved for the exact matches in one node list (coq/WeakSearch.v); the inexact fall-back (a string that matches no
+   whole nodes: text replacement and re-parse of the page) is validated by the oracle only. *)
+From MW Require Import PyBase PyList SmartList WikiEdit EditSpan Nodes Strip Context WeakSearch WeakSearchProofs.
 Local Open Scope Z_scope.
 
 Section C08.
@@ -82,3 +83,38 @@ Proof.
   - constructor.
   - apply (CH_in [] [] (fun c => NTemplate [NText [116%N]] ([] ++ ([NText [107%N]], c, true) :: [])) (fun c => c)); constructor.
 Qed.
+
+(* string targets, exact matches in one node list (remove / replace / insert_before / insert_after are weak_edit with
+   h = nothing / the value / value ++ match / match ++ value): the result is the list with n >= 1 DISJOINT occurrences of
+   the pattern replaced and every other node kept in order; ValueError exactly when the pattern is empty or occurs nowhere *)
+Theorem C08_string_target_edits_only_occurrences : forall (A : Type) (eqb : A -> A -> bool) pat h l l',
+  weak_edit eqb pat h l = Ok l' -> exists n, n <> 0%nat /\ Rep eqb pat h n l l'.
+Proof. exact (@weak_edit_spec). Qed.
+
+Theorem C08_string_target_not_found : forall (A : Type) (eqb : A -> A -> bool) pat h l,
+  weak_edit eqb pat h l = Exn ValueError <-> pat = [] \/ (forall a o b, l = a ++ o ++ b -> ~ occurrence eqb pat o).
+Proof. exact (@weak_edit_not_found). Qed.
+
+Theorem C08_string_target_total : forall (A : Type) (eqb : A -> A -> bool) pat h l,
+  weak_edit eqb pat h l = Exn ValueError \/ exists l', weak_edit eqb pat h l = Ok l'.
+Proof. exact (@weak_edit_total). Qed.
+
+(* ... and in the page's text exactly those occurrences of the target's text change *)
+Theorem C08_string_target_text : forall (A : Type) (eqb : A -> A -> bool) (B : Type) (f : A -> list B) pat h ht n l l',
+  (forall a b, eqb a b = true -> f a = f b) ->
+  (forall k o, occurrence eqb pat o -> flat_map f (h k o) = ht k (flat_map f pat)) ->
+  Rep eqb pat h n l l' -> TRep (flat_map f pat) ht n (flat_map f l) (flat_map f l').
+Proof. exact (@rep_text). Qed.
+
+(* the scan goes from the end: 'aa' in 'aaa b aa' is found at [1,3) and [4,6) *)
+Example C08_string_target_example :
+  (weak_replace Nat.eqb [1; 1] (fun k => [9 + k]) [1; 1; 1; 2; 1; 1] = Ok [1; 10; 2; 9]
+  /\ weak_remove Nat.eqb [1; 2] [3; 1] = Exn ValueError
+  /\ weak_before Nat.eqb [2] (fun _ => [7; 8]) [1; 2; 3] = Ok [1; 7; 8; 2; 3]
+  /\ weak_after Nat.eqb [2] (fun _ => [7; 8]) [1; 2; 3] = Ok [1; 2; 7; 8; 3])%nat.
+Proof. vm_compute. repeat split. Qed.
+
+Print Assumptions C08_string_target_edits_only_occurrences.
+Print Assumptions C08_string_target_not_found.
+Print Assumptions C08_string_target_total.
+Print Assumptions C08_string_target_text.
